@@ -218,8 +218,11 @@ def judge(cmds, prop, res=None):
                     break
                 v2 = decide(problem(cmds, m, b_terms, ["(assert %s)" % itxt]))
                 if v2 == "sat":
+                    # symptom of the known "constant assertion in A" finding: some single assertion of A is unsatisfiable or valid by itself
+                    falsea = any(decide(problem(cmds, m, [t], [])) == "unsat" or
+                                 decide(problem(cmds, m, [T("not", (strip_named(t),), "Bool")], [])) == "unsat" for t in a_terms[:12])
                     bad.append((i, "itp-consistent-with-B", "I=%s is satisfiable together with B (all current assertions except %s)" % (
-                        sexpr.dump(itp)[:400], a_names), ""))
+                        sexpr.dump(itp)[:400], a_names), "a-has-constant-assertion" if falsea else "a-no-constant-assertion"))
                     okall = False
                     break
                 isyms = {s for s in outputs.symbols_of(itp) if s in declared}
